@@ -350,6 +350,14 @@ class AutoRepair:
             self.hub.tlog.append(('wo_request', dev.name, self.tag, bool(r), mt.name))
 
 
+class InstantRepair:
+    '''Shutdown callback that puts a failed machine back into service at once (a zero-time auto-recover).'''
+
+    def __call__(self, dev, is_failure, part):
+        if is_failure:
+            dev.restore_functionality()
+
+
 class CycleByOrdinal:
     '''Receive callback: sets the cycle time / one-shot offset for the n-th part.'''
 
@@ -507,11 +515,14 @@ class OpAction:
 
 class LineWorld:
     _canon_skip = ('spec', 'facts', 'last_tie_size', 'budget', 'mode', 'ops', 'horizon',
-                   'op_limits', 'positions', '_saved', '_gsaved', 'script', 'dispatched', '_prev_hub', '_prev_rr', 'wcount')
+                   'op_limits', 'positions', '_saved', '_gsaved', 'script', 'dispatched', '_prev_hub', '_prev_rr', 'wcount',
+                   'trail', 'mon_recipe')
 
     def __init__(self, spec, monitors=(), mode='e1'):
         self.spec = spec
         self.mode = mode
+        self.trail = []              # labels applied so far (recipe for a replay-based fork, see fork/recipe)
+        self.mon_recipe = [getattr(m, '_recipe', None) for m in monitors]
         self.horizon = spec['horizon']
         self.ops = [tuple(o) if not isinstance(o, tuple) else o for o in spec.get('ops', [])]
         self.op_limits = list(spec.get('op_limits') or [None] * len(self.ops))
@@ -688,6 +699,8 @@ class LineWorld:
                 o.add_restored_callback(p.restored)
             if d.get('auto_repair') is not None:
                 o.add_shutdown_callback(AutoRepair(self.dev, self.hub, d['auto_repair']))
+            if d.get('instant_repair'):
+                o.add_shutdown_callback(InstantRepair())
         return o
 
     def make_aux(self, d):
@@ -751,13 +764,23 @@ class LineWorld:
 
     def fork(self):
         '''Independent copy of the whole world (used by monitors that probe "what if").'''
-        import pickle
+        from .explorer import snapshot
         step = self.env.__dict__.pop('step', None)     # E2 instance override is a closure
         try:
-            return pickle.dumps(self, pickle.HIGHEST_PROTOCOL)
+            return snapshot(self)
         finally:
             if step is not None:
                 self.env.step = step
+
+    def recipe(self):
+        '''How to build an equal world from scratch (mc.explorer.ReplaySnap: fallback when the world cannot be pickled).'''
+        from .explorer import ReplaySnap
+        spec, recs, mode = self.spec, list(self.mon_recipe), self.mode
+
+        def args():
+            from .linejobs import make_monitors
+            return (spec, make_monitors(recs))
+        return ReplaySnap(LineWorld, args, {'mode': mode}, self.trail)
 
     # ------------------------------------------------------------------ protocol
     def digest(self):
@@ -861,6 +884,7 @@ class LineWorld:
         label = tuple(label)
         env = self.env
         self.facts = []
+        self.trail.append(label)
         self._enter()
         try:
             if not self.started:
